@@ -886,7 +886,7 @@ where
     let mut rng = derive(cfg.seed, &[hash_str("storage"), case]);
     ledger::reset();
     let mut world = World::new();
-    let how = rng.below(4) as u8;
+    let how = rng.below(8) as u8;
     Drv::<C>(std::marker::PhantomData).register(&mut world, how);
     // entity layout
     let shape = if cfg.extra_u64("far", 0) == 1 && rng.chance(1, 4) {
